@@ -232,7 +232,7 @@ pub fn round_trip<K: BoolKind>(c: &DCase) -> Result<DStat, String> {
 // --- malformed input --------------------------------------------------------
 
 /// load + import of arbitrary bytes in a manager with n variables; returns Ok(accepted?)
-fn malformed_manager<K: BoolKind>(n: u32, order: &[u32]) -> MRef<K> {
+pub fn malformed_manager<K: BoolKind>(n: u32, order: &[u32]) -> MRef<K> {
     let mr = K::new_manager(1 << 12, 64, 1);
     mr.with_manager_exclusive(|m| m.add_vars(n));
     if order.len() == n as usize {
@@ -241,7 +241,7 @@ fn malformed_manager<K: BoolKind>(n: u32, order: &[u32]) -> MRef<K> {
     mr
 }
 
-fn import_malformed<K: BoolKind>(mr: &MRef<K>, n: u32, data: &[u8]) -> Result<bool, String> {
+pub fn import_malformed<K: BoolKind>(mr: &MRef<K>, n: u32, data: &[u8]) -> Result<bool, String> {
     let r = std::panic::catch_unwind(std::panic::AssertUnwindSafe(|| K::dddmp_import(mr, data, None)));
     match r {
         Err(e) => Err(format!("import-panic: {}", panic_msg(&e))),
@@ -380,7 +380,7 @@ fn apply_hmut(data: &[u8], m: &HMut) -> Vec<u8> {
 }
 
 /// base files for the malformed-input part: a few valid exports per kind
-fn base_files<K: BoolKind>(seed: u64) -> Vec<(u32, Vec<u32>, Vec<u8>)> {
+pub fn base_files<K: BoolKind>(seed: u64) -> Vec<(u32, Vec<u32>, Vec<u8>)> {
     let mut v = vec![];
     for i in 0..6u64 {
         let s = mix(seed ^ i);
@@ -410,6 +410,24 @@ fn malformed_job<K: BoolKind>(seed: u64, cases: u32, rep: &mut Report) {
         let out = isolated(60, |w| {
             for (n, o, f) in base_files::<K>(seed) {
                 let _ = writeln!(w, "{}", json!({"n": n, "order": o, "file": hex(&f)}));
+            }
+            // files written for ANOTHER kind of diagram (other terminal names, complement
+            // edges, binary mode where this kind only writes ASCII): valid DDDMP, possibly
+            // not importable here - it must be rejected or imported, never crash
+            if K::KIND != BKind::Bcdd {
+                for (n, o, f) in base_files::<BcddK>(seed ^ 0xf0) {
+                    let _ = writeln!(w, "{}", json!({"n": n, "order": o, "file": hex(&f)}));
+                }
+            }
+            if K::KIND != BKind::Zbdd {
+                for (n, o, f) in base_files::<ZbddK>(seed ^ 0xf1).into_iter().take(3) {
+                    let _ = writeln!(w, "{}", json!({"n": n, "order": o, "file": hex(&f)}));
+                }
+            }
+            if K::KIND != BKind::Bdd {
+                for (n, o, f) in base_files::<BddK>(seed ^ 0xf2).into_iter().take(3) {
+                    let _ = writeln!(w, "{}", json!({"n": n, "order": o, "file": hex(&f)}));
+                }
             }
         });
         out.lines.iter().filter_map(|l| serde_json::from_str::<serde_json::Value>(l).ok()).filter(|v| v.get("file").is_some()).map(|v| (v["n"].as_u64().unwrap() as u32, serde_json::from_value(v["order"].clone()).unwrap(), unhex(v["file"].as_str().unwrap()))).collect()
@@ -641,7 +659,7 @@ pub fn run(cfg: &Cfg) -> i32 {
         &total,
         Meta {
             level: "exploration",
-            rule: "round trips (proptest): 0..4 random functions over 3..8 variables under a random order as roots (incl. unused variables and shared nodes), BDD/BCDD/ZBDD, settings ASCII/binary x format 2.0/3.0 x strict on/off x diagram name (plain/with spaces/with control characters) x variable names (none, all, some; names with spaces, tabs, unicode, leading underscores, empty, names colliding with the sanitised form) x root names likewise. Checked: strict mode reports exactly when a name needs sanitising; every file the exporter completes is accepted by DumpHeader::load + import; in the same manager the imported handles == the originals; in a fresh manager whose order was set from support_var_order the imported tables equal the exported ones and the audit passes; header metadata (nvars, support ids, permids, support order, diagram name, variable names sanitised as documented, root names with _f{i}) equals what was exported. Malformed input: every truncation point of 6 valid files per kind and seeded mutations (header field replaced by 0 / 2^32-1 / 2^64-1 / reversed / duplicated / negative / shortened, bit flips, deletions, insertions, swapped lines) imported in forked children with a 4 GiB address-space limit: a panic, abort, segfault or OOM is a violation, an accepted input must yield a well-formed diagram (structure + reference-count audit). Non-trivial = round trip with >= 2 roots, an unused variable and level != variable; truncated/mutated input reaching the importer.",
+            rule: "round trips (proptest): 0..4 random functions over 3..8 variables under a random order as roots (incl. unused variables and shared nodes), BDD/BCDD/ZBDD, settings ASCII/binary x format 2.0/3.0 x strict on/off x diagram name (plain/with spaces/with control characters) x variable names (none, all, some; names with spaces, tabs, unicode, leading underscores, empty, names colliding with the sanitised form) x root names likewise. Checked: strict mode reports exactly when a name needs sanitising; every file the exporter completes is accepted by DumpHeader::load + import; in the same manager the imported handles == the originals; in a fresh manager whose order was set from support_var_order the imported tables equal the exported ones and the audit passes; header metadata (nvars, support ids, permids, support order, diagram name, variable names sanitised as documented, root names with _f{i}) equals what was exported. Malformed input: every truncation point of 6 valid files per kind plus 6..9 valid files written for the OTHER kinds (other terminal names, complemented edges, binary mode for kinds that only write ASCII) and seeded mutations (header field replaced by 0 / 2^32-1 / 2^64-1 / reversed / duplicated / negative / shortened, bit flips, deletions, insertions, swapped lines) imported in forked children with a 4 GiB address-space limit: a panic, abort, segfault or OOM is a violation, an accepted input must yield a well-formed diagram (structure + reference-count audit). Non-trivial = round trip with >= 2 roots, an unused variable and level != variable; truncated/mutated input reaching the importer.",
             assumptions: vec!["for a mutated file there is no reference for what it should mean: the claim checked is 'rejected, or a well-formed diagram'".into(), "format 2.0 files carry names for support variables only; names of unused variables are checked for 3.0".into()],
             extra: json!({}),
         },
